@@ -723,7 +723,10 @@ func (m *Machine) indexAddr(c Value, idx *Term) Value {
 		if x.arr != nil {
 			if bl, ok := x.arr.v.(*Blob); ok {
 				if bl.kind == "sig" {
-					// the recovery byte of a model signature: already 0/1
+					// R || S are opaque; the recovery byte (index 64) is a real, mutable byte of this copy
+					if v, ok := idx.constInt(); ok && v == 64 && bl.cell != nil {
+						return PtrVal{obj: bl.cell}
+					}
 					return PtrVal{obj: m.newObj(mkInt(0), nil, "sigbyte")}
 				}
 				if bl.kind != "atombytes" {
